@@ -5,3 +5,4 @@ cd "$(dirname "$0")/.."
 /venv/bin/python tools/extract_log.py
 /venv/bin/python tools/extract_recv.py
 /venv/bin/python tools/extract_crypto.py --repo "${VERIF_REPO:-/repo}" --out lean/AQ/Gen/CryptoTables.lean
+/venv/bin/python tools/extract_tls.py
